@@ -35,7 +35,7 @@ def tableFull (st : St) (i f : Nat) : Bool :=
 
 def step (st : St) (t : List String) : Option (St × String) :=
   match t with
-  | ["hnew", be] =>
+  | "hnew" :: be :: _ =>
       let (n, v) := if be == "vsbx2" then (2, true) else if be == "vsbx8" then (8, true) else (64, false)
       some ({ w := World.init n, vsbx := v, dead := false, brk := [16, 16, 16] }, "ok")
   | ["hend"] => some (st, "ok")     -- end of a history: every created sandbox can be destroyed
@@ -43,7 +43,7 @@ def step (st : St) (t : List String) : Option (St × String) :=
   if st.dead then
     match t with
     | [] => none
-    | c :: _ => if c ∈ ["create", "destroy", "malloc", "free", "reg", "regfill", "cbunreg", "cbdestroy", "cbmove", "stat", "invoke", "fnaddr", "find", "appptr", "hprobe"]
+    | c :: _ => if c ∈ ["create", "createat", "destroy", "malloc", "free", "reg", "regfill", "cbunreg", "cbdestroy", "cbmove", "stat", "invoke", "fnaddr", "find", "appptr", "hprobe"]
                 then some (st, "dead") else none
   else
   match t with
@@ -54,6 +54,13 @@ def step (st : St) (t : List String) : Option (St × String) :=
       match st.w.create i okb (if st.vsbx then lib else 0) with
       | none => pure (abortSt st)
       | some (w', r) => pure ({ st with w := w', brk := st.brk.set i 16 }, s!"ok {r}")
+  | "createat" :: i :: r :: ok :: rest => do
+      -- sandbox object i created in region (address slot) r: distinct objects may use one region one after the other
+      let i ← i.toNat?; let r ← r.toNat?
+      let lib := (rest.head?.bind String.toNat?).getD 0
+      match st.w.create i (ok == "ok") lib r with
+      | none => pure (abortSt st)
+      | some (w', b) => pure ({ st with w := w', brk := st.brk.set i 16 }, s!"ok {b}")
   | ["destroy", i] => do
       let i ← i.toNat?
       match st.w.destroy i with
